@@ -247,10 +247,14 @@ func (c *verifC11Ctl) nInflight() int {
 
 // waitInflight waits until n requests are parked. The limit is counted in 20 ms timer ticks, not
 // read from the clock: the sandbox clock can jump (VM pause), and a jump must not look like a hang.
-func (c *verifC11Ctl) waitInflight(n int, limit time.Duration) bool {
+func (c *verifC11Ctl) waitInflight(n int, limit time.Duration, done chan verifC11PutResult) bool {
 	ticks := 0
 	for {
 		if c.nInflight() >= n {
+			return true
+		}
+		if done != nil && len(done) > 0 {
+			// the call has returned: nothing more will arrive (the caller's select sees `done` next)
 			return true
 		}
 		select {
@@ -538,21 +542,25 @@ loop:
 			if a == 0 {
 				continue
 			}
-			if !ctl.waitInflight(a, limit) {
+			if !ctl.waitInflight(a, limit, done) {
 				ctl.releaseAll()
 				return "hang waiting-for-requests " + verifC11Join(processed)
+			}
+			if ctl.nInflight() < a {
+				continue // the call returned meanwhile
 			}
 			processed = append(processed, ctl.releasePick(nextPick()))
 			expect = a - 1
 		case <-time.After(tick):
-			if len(ctl.events) > 0 || len(done) > 0 {
-				continue
-			}
 			// No message from putReplicas for a while: look at the goroutines themselves. If the
 			// putReplicas goroutine is blocked receiving an upload status and every upload goroutine
 			// it started is parked in our Do, it waits for us (the message was removed); if it has no
-			// upload goroutine left at all, it will wait forever.
+			// upload goroutine left at all, it will wait forever. The event queue is read AFTER the
+			// snapshot: a putReplicas that the snapshot shows blocked has sent its message before.
 			snap := verifC11Snapshot(mainID)
+			if len(ctl.events) > 0 || len(done) > 0 {
+				continue
+			}
 			nin := ctl.nInflight()
 			switch {
 			case snap.mainWaiting && nin > 0 && snap.children == nin:
@@ -574,7 +582,7 @@ loop:
 	}
 	// uploads that putReplicas abandoned: wait for them to arrive, then let them finish
 	if sawEvent && !verifC11NoEvents {
-		ctl.waitInflight(expect, 10*time.Second)
+		ctl.waitInflight(expect, 10*time.Second, nil)
 	} else {
 		for i := 0; i < 20000; i++ {
 			snap := verifC11Snapshot(mainID)
